@@ -173,6 +173,10 @@ func (w *World) openEngine() error {
 		return err
 	}
 	w.E = e
+	w.opens++
+	if w.opens > 1 {
+		w.FaultFired("restart_from_disk") // every open after the first recovers from what the previous engine left on disk
+	}
 	return nil
 }
 
